@@ -34,6 +34,7 @@ def run(tier):
         H.freenull(prog, rep)
         H.cookie_init(prog, rep, L)
         H.eol_scan(prog, rep)
+        H.borrow_rule(prog, rep)       # nothing of the caller's request description is read after http_request() returns, except the body
         from . import c07, c14
         c07.orphan_rule(prog, rep)     # "leaks nothing": the request's writer must not orphan a queued buffer
         c07.writer(prog, rep)          # the request goes out through the buffered writer: its failure/in-flight discipline (F1-F3, SLOT; shared with C07)
@@ -42,11 +43,16 @@ def run(tier):
         wprog = ir.Program(None, cfg)
         c14.leak_rules(wprog, rep, only_files=ANCHORED)
         c14.double_free_rule(wprog, rep, only_files=tuple(ANCHORED) + ("http/https.c",))
+        c14.realloc_nonzero_rule(wprog, rep, only_files=ANCHORED)
         # "never aborts, never reads or writes outside its buffers": the reader's window invariant and launch preconditions (shared with C07)
         c07.reader_window(wprog, rep)
         # the connection under the request: a descriptor that was closed is never reported as the connected socket (shared with C06)
         from . import c06
         c06.closed_fd_rule(wprog, rep)
+        c06.close_registered_rule(wprog, rep)
+        # a completed operation's handle is dropped before the failure path can cancel through it (shared with C06/C07)
+        if c06.handle_clear_rule(wprog, rep, list(ANCHORED)) < 5:
+            raise cdb.AnalysisBroken("SLOT: fewer than 5 (handle field, completion callback) pairs found in the anchored units")
     n = len(configs)
     rep.require_min("LIN", 11 * n)
     rep.require_min("B1-store", 2 * n)
